@@ -16,9 +16,10 @@ CONSTANTS
   BugDoubleStore = FALSE
   BugNoCloseUnclean = FALSE
   FixStreamCtxStore = TRUE
+  BugKeepAbandoned = FALSE
   Emit = FALSE
   WarmChoices = {FALSE}
-INVARIANTS TypeOK SessionIsolated Exclusive RejectAfterRelease MarkedWhenReleased CleanOnReturn NoLeak
+INVARIANTS TypeOK SessionIsolated Exclusive RejectAfterRelease MarkedWhenReleased CleanOnReturn NoForeignInFlight NoLeak
 CONSTRAINT HighWater
 POSTCONDITION TraceAccepted
 CHECK_DEADLOCK FALSE
